@@ -52,6 +52,22 @@ CLAIMED = {
          "Machine-checked theorems over the Gallina model of encoding/basex: encodeBlock is fixed-width positional base conversion, decode(encode x)=x for every byte string, strict decoding accepts only canonical strings (non-minimal lengths, foreign characters and overflowing values rejected), skip characters are exactly deletable, length helper = encoder output length. The model is the extracted code the harness runs against the Go package on every run (all 1-byte blocks, all short strings, every length 0..4*blocklen+1, mutated encodings).",
          NOTE_COMMON + "Go float64/math.Log2 length formulas are not modelled; they are compared exhaustively on the domain the code evaluates them on. math/big is trusted. Streaming encoder/decoder: see C13.",
          "DESIGN.md section 5 C10"),
+ "C11": ("Coq proof over the denotational armor model (frame grammar soundness/completeness, word/line shape by induction, round trip under an inductively defined re-flow relation, via the BaseX round trip) + campaign incl. an exhaustive small-alphabet enumeration tying the hand-written matchers to Go's regexp",
+         "Theorems (props/C11.v): the frames the library writes parse back to their brand; the body of every payload is base-62 words of <=15 characters, <=200 per line, whose digits are the block-wise encoding; dearmor(armor(p)) returns the identical payload, brand, header and footer, also after arbitrary runs of space/tab/CR/LF/'>' inserted between any two payload characters, between frame words or around the frame (frames within 512 characters); a sentence is accepted as a frame ONLY if it normalises to the canonical frame of the expected marker and type, is <=512 bytes and its brand <=128; the footer must mirror the header; whatever a validating dearmor accepts carries such a frame of the expected type. Campaign: ~62,000 evaluations (quick): every payload length 0..140, line-break lengths, brands 0/1/7/127/128, re-flows, adversarial texts, and EVERY string over {'.',' ','0','z','!','>'} up to length 6 through Armor62Open/CheckArmor62, model = /repo.",
+         NOTE_COMMON + "Go's regexp, strings.TrimSpace on non-ASCII input and buffer aliasing in punctuatedReader are modelled only. Reading of 'identical header and footer': Frame.GetHeader/GetFooter return the sentence as received (trimmed), so after a re-flow inside the frame they are identical up to the inserted runs (the theorem says exactly that). The streaming state machines are covered by C13.",
+         "DESIGN.md section 5 C11"),
+ "C12": ("Coq proof by induction over the receivers'/senders' control flow on a key-call trace model (no cryptographic assumption, every input) + campaign with recording key-object wrappers comparing the real call sequence with the model's trace",
+         "Theorems (props/C12.v): for EVERY received byte string, validator and keyring, every Unbox/Precompute-Unbox on a long-term box key uses the V1 constant nonce or 'saltpack_recipsb'+recipient index, every Box on a long-term box key (receiver MAC keys, signcryption derived keys, sender MAC keys) boxes exactly 32 zero bytes; every string handed to a signing key is one of the three domain-separation strings followed by fixed-length hash material (64 or 153 bytes), and for attached signatures that hash covers the header hash of a header containing the 16 bytes just drawn. Campaign: ~500 (quick) genuine/mutated/forged messages and sends with recording BoxSecretKey/BoxPrecomputedSharedKey/SigningSecretKey wrappers: recorded (operation, peer, nonce, message) sequences equal the model's trace and satisfy the predicate directly.",
+         NOTE_COMMON + "The trace functions (coq/model/KeyTrace.v) mirror the control flow of Decrypt.v/Signcrypt.v/Sign.v and are a separate definition tied to /repo by the campaign; ephemeral keys are not long-term keys and are not traced.",
+         "DESIGN.md section 5 C12"),
+ "C13": ("Coq proof: saltpack's stream adaptors as explicit state machines over explicit read schedules (refinement of a denotation under every schedule and buffer-size sequence; write-split independence and buffer bounds by induction) + call-by-call correspondence with /repo's punctuatedReader/chunkReader and a fragmentation campaign over all decoding stacks",
+         "Theorems (props/C13.v): every split of the input across Write calls (incl. empty writes) gives the one-shot bytes for the chunker, Sign/Seal/SigncryptSeal streams, the basex stream encoder and the armor encoder; buffers are bounded (<= one block of plaintext, < one basex input block, <= one armor word); chunkReader and punctuatedReader (as repaired) deliver a function of the source's BYTES under every fragmentation of the underlying reader incl. data delivered together with EOF or another error and every caller buffer sizes; frame sentences (ReadUntilPunctuation) depend on the bytes only. Campaign: the Go punctuatedReader/chunkReader equal the Coq state machines call by call on ~600 schedules; every decoding stack (binary and armored) on genuine/mutated/re-flowed/padded inputs under 16 fragmentations + exhaustive two-cut splits: same outcome, same bytes, prefix-related on failure; 24 MiB (192 MiB thorough) streamed with bounded live heap.",
+         NOTE_COMMON + "PARTIAL for: the composed armored decode stack, the basex stream decoder/filteringReader and go-codec's reader (campaign only), and the memory clause (measured live heap, not proved; the model's state-size bounds mirror it).",
+         "DESIGN.md section 5 C13"),
+ "C14": ("exhaustive fault enumeration (a fault at every underlying Write/Read call of a fault-free run, transient/sticky/with-data) on /repo + Coq corollaries of the adaptor refinement theorems for the read side",
+         "Theorems (props/C14.v): for punctuatedReader, chunkReader and frame sentences, under every fragmentation and buffer sizes, if reading ended with an error it is the underlying reader's own error (so a non-EOF fault is never turned into a clean end), reported only after every byte delivered before or together with it, and enough reads always reach it. Campaign: 12 encoder streams x 4 message lengths (more in thorough) with a fault at EVERY underlying Write (once / from then on): the constructor, some Write or Close returns an error; every decoder stack with an injected error at EVERY underlying Read (alone transient, alone sticky, with data incl. whitespace-only slices): the stream ends with an error and released bytes are a prefix of the genuine output (~5,700 injections quick).",
+         NOTE_COMMON + "PARTIAL: the write side (sticky error fields, closeForwarder, go-codec's encoder) and the composed decode stacks are decided by enumeration on /repo, not by a theorem; evidence level is therefore fault_enumeration with proof obligations for the read-side adaptors.",
+         "DESIGN.md section 5 C14"),
  "C17": ("Coq proof (header gate lemmas by unfolding; cross-mode and version refusals as corollaries of the round-trip lemmas) + cross-feeding campaign over every producer/consumer/validator triple and lying-header forgeries",
          "Theorems (props/C17.v): each receiving entry point succeeds only if the header decoded from the wire names format 'saltpack', carries a version the caller's validator accepts (signcryption: major 2) and the entry point's mode; the four mode values and the two versions are distinct; a genuine attached signature is refused by the detached verifier and vice versa, a genuine message is refused by the single-version validator of the other version; Sign/SignDetached/Seal with any version outside {1.0, 2.0} return ErrBadVersion (no bytes, no panic in the model). Campaign: all 7 producers x 4 consumers x validators; messages from the reference sender whose header lies about format/version/mode with all keys/MACs/signatures recomputed; every Version in {0..3}x{0..2} and odd values to every sender.",
          NOTE_COMMON + NOTE_CRYPTO + "Cross-mode authenticity against forgers is carried by C02/C04/C06/C07 (mode and version are inside the hashed header; domain-separation strings).",
@@ -66,6 +82,7 @@ CLAIMED = {
          "DESIGN.md section 5 C19"),
 }
 
+LEVELS = {}
 checks = []
 na = []
 for p in props:
@@ -79,7 +96,7 @@ for p in props:
             "evidence_file": "/verif/evidence/%s.json" % pid,
             "replay_cmd_template": "./check %s --replay {path}" % pid,
             "engine": "coq-model+correspondence",
-            "level_claimed": {"category": "proof", "text": text, "design_ref": ref},
+            "level_claimed": {"category": LEVELS.get(pid, "proof"), "text": text, "design_ref": ref},
             "level_note": note,
             "technique": tech,
         })
